@@ -206,26 +206,39 @@ func (g *gen) directiveTable(rel, varName string) []directive {
 				fields[order[i]] = fe
 			}
 		}
+		for f := range fields {
+			if f != "Apply" && f != "ValidArgLengths" && f != "CancelAutoescape" {
+				g.fail("%s: %s[%q] has a field %s the translator does not know", rel, varName, name, f)
+			}
+		}
+		if len(v.Elts) > len(order) {
+			g.fail("%s: %s[%q] has more than %d fields", rel, varName, name, len(order))
+		}
 		if id, ok := fields["Apply"].(*ast.Ident); ok {
 			if id.Name == "nil" {
 				d.NilApply = true
+			} else if g.funcDecl(rel, id.Name) == nil {
+				g.fail("%s: %s[%q] Apply is %s, which is not a function of the file", rel, varName, name, id.Name)
 			}
 			d.Fn = id.Name
 		} else if fields["Apply"] == nil {
 			d.NilApply = true
+			d.Fn = "nil" // an omitted field is the zero value: the same entry as an explicit nil
 		} else {
 			d.Fn = "<expr>"
 		}
 		if al, ok := fields["ValidArgLengths"].(*ast.CompositeLit); ok {
 			for _, e := range al.Elts {
-				if n, ok := intLit(e); ok {
+				if n, ok := intLit(e); ok && n >= 0 {
 					d.ArgLens = append(d.ArgLens, n)
 				} else {
 					g.fail("%s: %s[%q] arg length not an int literal", rel, varName, name)
 				}
 			}
+		} else if fields["ValidArgLengths"] != nil && !isIdent(fields["ValidArgLengths"], "nil") {
+			g.fail("%s: %s[%q] ValidArgLengths is not a []int literal", rel, varName, name)
 		}
-		if id, ok := fields["CancelAutoescape"].(*ast.Ident); ok {
+		if id, ok := fields["CancelAutoescape"].(*ast.Ident); ok && (id.Name == "true" || id.Name == "false") {
 			d.Cancel = id.Name == "true"
 		} else if fields["CancelAutoescape"] != nil {
 			g.fail("%s: %s[%q] CancelAutoescape not a literal", rel, varName, name)
@@ -237,7 +250,24 @@ func (g *gen) directiveTable(rel, varName string) []directive {
 }
 
 func (g *gen) htmlDirectives() {
-	ds := g.directiveTable("soyhtml/directives.go", "PrintDirectives")
+	var ds []directive
+	perr := g.silent(func() { ds = g.directiveTable("soyhtml/directives.go", "PrintDirectives") })
+	pats := ""
+	if len(perr) == 0 {
+		pats = canonDirectives(ds)
+	}
+	ev, everrs := g.evalSoyhtml()
+	evs, everr := "", evErr(everrs, "PrintDirectives")
+	evDs, ok := evalDirectives(ev)
+	if ok {
+		evs = canonDirectives(evDs)
+	}
+	switch g.choose("soyhtml/directives.go PrintDirectives", pats, strings.Join(perr, "; "), evs, everr) {
+	case routeEval:
+		ds = evDs
+	case routeNone:
+		ds = nil
+	}
 	g.p("(* soyhtml/directives.go PrintDirectives: (name, (arg lengths, (cancel, (nil Apply, Go function)))) *)\n")
 	g.p("Definition html_directives : list (bstr * (list N * (bool * (bool * bstr)))) := [\n")
 	for i, d := range ds {
